@@ -62,7 +62,7 @@ Proof. exact nuke_static_document. Qed.
 Print Assumptions C01_static_document_survives_whitespace_pass.
 
 (** templates with interpolation, `=` scripts, unescaped `!=` / `!` lines, dynamic and conditional attributes, and
-    `-` blocks written without braces (if / else if / else chains, for, switch):
+    `-` lines (Go statements, blocks written without braces: if / else if / else chains, for, switch with its case lines):
     the generated body is a run of literal chunks, dynamic blocks and Go statements `stmt { ... }`, [denotes],
     standing for the segments [segs_list body]: literal HTML ([SLit]), for each `= expr` / `#{expr}` the
     EscapeString-ed value of the expression ([SDyn]; [SRaw], the value as it is, after `!`), and for each `-` line its statement around the code of its
@@ -137,9 +137,10 @@ Print Assumptions C01_nonvacuous.
     segments are the expected ones *)
 Definition ex2_src : bytes :=
   lit "@goht T(a string, xs []string) {" ++ [10; 9] ++ lit "%p.c{title: #{a}, hidden ? #{a == """"}} hello #{a}!" ++ [10; 9] ++ lit "= a" ++ [10; 9] ++
-  lit "!= a" ++ [10; 9] ++
+  lit "!= a" ++ [10; 9] ++ lit "- n := len(xs)" ++ [10; 9] ++
   lit "- for _, x := range xs" ++ [10; 9; 9] ++ lit "%li= x" ++ [10; 9] ++ lit "- if a != """"" ++ [10; 9; 9] ++ lit "%b yes" ++ [10; 9] ++
-  lit "- else if len(xs) > 0" ++ [10; 9; 9] ++ lit "%i some" ++ [10; 9] ++ lit "- else" ++ [10; 9; 9] ++ lit "%u no" ++ [10] ++ lit "}" ++ [10].
+  lit "- else if n > 0" ++ [10; 9; 9] ++ lit "%i some" ++ [10; 9] ++ lit "- else" ++ [10; 9; 9] ++ lit "%u no" ++ [10; 9] ++
+  lit "- switch n" ++ [10; 9; 9] ++ lit "- case 1:" ++ [10; 9; 9; 9] ++ lit "%em one" ++ [10] ++ lit "}" ++ [10].
 Definition ex2_items : list node :=
   Eval vm_compute in match compile_parse ex2_src with ODone (Node _ items) None => items | _ => [] end.
 
@@ -148,9 +149,11 @@ Example C01_nonvacuous_dynamic :
   | Node (KGoht o) body :: _ =>
       Forall dyn_node body /\ kids_ok body /\
       match segs_list false body with
-      | [_; _; _; SDynQ _; SBlock s0 _; _; _; SDyn _; _; _; _; SDyn _; _; SRaw _; _; SBlock s1 b1; SBlockOpen s2 b2; SBlockCont s3 b3; SBlockLast s4 b4] =>
+      | [_; _; _; SDynQ _; SBlock s0 _; _; _; SDyn _; _; _; _; SDyn _; _; SRaw _; _; SStmt s5; SBlock s1 b1; SBlockOpen s2 b2; SBlockCont s3 b3; SBlockLast s4 b4;
+         SBlock s6 [SLine s7 b7]] =>
           s0 = lit "if a == """"" /\
-          s1 = lit "for _, x := range xs" /\ s2 = lit "if a != """"" /\ s3 = lit "else if len(xs) > 0" /\ s4 = lit "else" /\
+          s1 = lit "for _, x := range xs" /\ s2 = lit "if a != """"" /\ s3 = lit "else if n > 0" /\ s4 = lit "else" /\
+          s5 = lit "n := len(xs)" /\ s6 = lit "switch n" /\ s7 = lit "case 1:" /\ eval_segs (fun e => e) b7 = lit "<em>one</em>" ++ [10] /\
           eval_segs (fun e => lit "<" ++ e ++ lit ">") b1 = lit "<li>&lt;x&gt;</li>" ++ [10] /\
           eval_segs (fun e => e) b2 = lit "<b>yes</b>" ++ [10] /\ eval_segs (fun e => e) b4 = lit "<u>no</u>" ++ [10]
       | _ => False
@@ -173,6 +176,7 @@ Proof.
     | |- dyn_attr _ => unfold dyn_attr; cbn
     | |- plain _ => unfold plain
     | |- static_class _ => unfold static_class; cbn
+    | |- block_stmt _ \/ _ => first [left; unfold block_stmt; vm_compute; repeat split; reflexivity | right; vm_compute; repeat split; reflexivity]
     | |- block_stmt _ => unfold block_stmt; vm_compute
     | |- raw_child _ => cbn [raw_child]; cbn
     | |- _ <> [] => discriminate
